@@ -280,6 +280,53 @@ def run_sub(rec, seed, shard, nshards, tier):
     core.hyp_run(rec, prop_sub, sub_cases(), n, seed, shrink=(tier == 'thorough'))
 
 
+# ---------------------------------------------------------------- re-training into an existing rule directory
+def prop_retrain(case, rec):
+    """History: list A is trained into directory X, then list B into the SAME directory; the result must be byte-identical
+    (apart from the uuid) to training B into an empty directory - nothing of the earlier run may survive."""
+    kw = dict(encoding='utf-8', coverage=case['coverage'], ngram=case['ngram'], alphabet_size=case['alphabet_size'])
+    x, y = os.path.join(_dir(), 'RX'), os.path.join(_dir(), 'RY')
+    pa, _ = write_list(dict(case, entries=case['entries_a']))
+    ra = guard(case, trainer.train, pa, x, **kw)
+    pb = os.path.join(_dir(), 'train_b.txt')
+    pws = []
+    for p, c in case['entries']:
+        pws += [p] * c
+    trainer.write_training_file(pb, pws, 'utf-8')
+    rb = guard(case, trainer.train, pb, x, keep_dir=True, **kw)
+    rf = guard(case, trainer.train, pb, y, **kw)
+    if not (ra.ok and rb.ok and rf.ok):
+        if bool(rb.ok) != bool(rf.ok):
+            raise Violation('retrain_completion', f're-training completes {bool(rb.ok)} but training into an empty directory {bool(rf.ok)}', case)
+        rec.skip('trainer_did_not_complete')
+        return
+    tx, ty = tree(x), tree(y)
+    rec.case({'entries_a': case['entries_a'][:4], 'entries_b': case['entries'][:4]}, True, ['retrain_same_directory'], key=case)
+    if tx != ty:
+        diff = sorted(k for k in set(tx) | set(ty) if tx.get(k) != ty.get(k))
+        raise Violation('stale_files_after_retraining', f're-training list B into a directory that held the ruleset of list A differs from training B '
+                        f'into an empty directory in {diff[:6]}', case)
+
+
+
+@st.composite
+def retrain_cases(draw):
+    c = draw(cases())
+    a = draw(cases())
+    # make same-shaped lists likely: B is A with some words swapped for others of the same length and the same counts
+    swap = {'password1': 'sunshine1', 'monkey12': 'dragon12', 'iloveyou': 'princess', 'love2019!': 'blue2018!'}
+    if draw(st.booleans()):
+        c['entries'] = [[swap.get(p, p[::-1] if p.isalpha() else p), n] for p, n in a['entries']]
+    c['entries_a'] = a['entries']
+    c['coverage'], c['ngram'], c['alphabet_size'] = a['coverage'], a['ngram'], a['alphabet_size']
+    return c
+
+
+def run_retrain(rec, seed, shard, nshards, tier):
+    n = {'quick': 25, 'thorough': 500}[tier]
+    core.hyp_run(rec, prop_retrain, retrain_cases(), n, seed)
+
+
 SIGMA_CASE = {'entries': [['\u039b\u038c\u0393\u039f\u03a3:Pass', 1], ['\u03bb\u03cc\u03b3\u03bf\u03c2', 2], ['password1', 6], ['monkey12', 5], ['iloveyou', 5]],
               'coverage': 0.6, 'ngram': 2, 'alphabet_size': 100}
 
@@ -292,4 +339,5 @@ PARTS = [
     Part('regression_final_sigma', run_regress, prop, {'quick': 1, 'thorough': 1}),
     Part('relative_frequency', run_main, prop, {'quick': 8, 'thorough': 16}),
     Part('subprocess_determinism', run_sub, prop_sub, {'quick': 4, 'thorough': 8}),
+    Part('retrain_same_directory', run_retrain, prop_retrain, {'quick': 4, 'thorough': 8}),
 ]
